@@ -509,3 +509,136 @@ Lemma Forall_firstn {A} (P : A -> Prop) n (l : list A) : Forall P l -> Forall P 
 Proof. revert n. induction l as [|x r IH]; intros [|n] H; cbn; try constructor; inversion H; subst; auto. Qed.
 Lemma Forall_skipn {A} (P : A -> Prop) n (l : list A) : Forall P l -> Forall P (skipn n l).
 Proof. revert n. induction l as [|x r IH]; intros [|n] H; cbn; auto. inversion H; subst; auto. Qed.
+
+(* ------------------------------------------------------------------------------------------------ *)
+(** * Several codemods over shared stores *)
+
+Lemma count_name_app v n a b : count_name v n (a ++ b) = (count_name v n a + count_name v n b)%nat.
+Proof. unfold count_name. now rewrite filter_app, app_length. Qed.
+
+Lemma count_name_key v n m l : name_key v n = name_key v m -> count_name v n l = count_name v m l.
+Proof. intros H. unfold count_name. now rewrite H. Qed.
+
+Lemma has_requirement_key v declared n m :
+  name_key v n = name_key v m -> has_requirement v declared n = has_requirement v declared m.
+Proof. intros H. unfold has_requirement. now rewrite H. Qed.
+
+Lemma add_deps_count_le v deps declared n : (count_name v n (add_deps v deps declared) <= 1)%nat.
+Proof.
+  destruct (count_name v n (add_deps v deps declared)) as [|c] eqn:E; [lia|].
+  assert (Hpos : (0 < count_name v n (add_deps v deps declared))%nat) by lia.
+  apply count_name_pos in Hpos. destruct Hpos as [e [He Hk]].
+  rewrite <- (count_name_key v (dname e) n _ Hk) in E.
+  rewrite (add_deps_count v deps declared e (add_deps_sub _ _ _ _ He)) in E.
+  destruct (has_requirement v declared (dname e)); lia.
+Qed.
+
+(** Per-store invariant: [s0] the store at the start of the run, [W] everything written to it so far, [s] the store now. *)
+Definition store_inv (v : name_cmp) (s0 : store_st) (W : list dep) (s : store_st) : Prop :=
+  (forall n, (count_name v n W <= 1)%nat) /\
+  (forall n, has_requirement v (st_declared s0) n = true -> count_name v n W = 0%nat) /\
+  (forall n, has_requirement v (st_declared s0) n = true -> has_requirement v (st_declared s) n = true) /\
+  (forall e, In e W -> has_requirement v (st_declared s) (dname e) = true).
+
+Lemma store_inv_init v s : store_inv v s [] s.
+Proof. repeat split; auto; intros e []. Qed.
+
+Lemma store_write_sub v s deps : forall e, In e (fst (store_write v s deps)) -> In e (add_deps v deps (st_declared s)).
+Proof.
+  unfold store_write. cbn [fst].
+  destruct (st_writable s && forallb _ (add_deps v deps (st_declared s))); [auto|intros e []].
+Qed.
+
+Lemma store_write_count v s deps n :
+  (count_name v n (fst (store_write v s deps)) <= count_name v n (add_deps v deps (st_declared s)))%nat.
+Proof.
+  unfold store_write. cbn [fst].
+  destruct (st_writable s && forallb _ (add_deps v deps (st_declared s))); [lia|cbn; lia].
+Qed.
+
+Lemma store_inv_step v s0 W s deps :
+  store_inv v s0 W s -> store_inv v s0 (W ++ fst (store_write v s deps)) (snd (store_write v s deps)).
+Proof.
+  intros [H1 [H2 [H3 H4]]].
+  assert (Hdecl : st_declared (snd (store_write v s deps))
+                  = st_declared s ++ map dname (add_deps v deps (st_declared s))) by reflexivity.
+  assert (Hmono : forall n, has_requirement v (st_declared s) n = true ->
+                            has_requirement v (st_declared (snd (store_write v s deps))) n = true).
+  { intros n Hn. rewrite Hdecl, has_requirement_app, Hn. reflexivity. }
+  assert (Hzero : forall n, has_requirement v (st_declared s) n = true ->
+                            count_name v n (fst (store_write v s deps)) = 0%nat).
+  { intros n Hn. pose proof (store_write_count v s deps n) as Hle.
+    rewrite (add_deps_count_declared v deps _ n Hn) in Hle. lia. }
+  repeat split.
+  - intros n. rewrite count_name_app.
+    destruct (count_name v n W) as [|c] eqn:E.
+    + pose proof (store_write_count v s deps n). pose proof (add_deps_count_le v deps (st_declared s) n). lia.
+    + assert (Hpos : (0 < count_name v n W)%nat) by lia.
+      apply count_name_pos in Hpos. destruct Hpos as [e [He Hk]].
+      specialize (H4 e He). rewrite (has_requirement_key v _ _ _ Hk) in H4.
+      rewrite (Hzero n H4). specialize (H1 n). lia.
+  - intros n Hn. rewrite count_name_app, (H2 n Hn), (Hzero n (H3 n Hn)). reflexivity.
+  - intros n Hn. apply Hmono, H3, Hn.
+  - intros e He. apply in_app_iff in He. destruct He as [He|He].
+    + apply Hmono, H4, He.
+    + apply store_write_sub in He. rewrite Hdecl, has_requirement_app.
+      apply orb_true_iff. right. apply has_requirement_true. exists (dname e). split; [now apply in_map|reflexivity].
+Qed.
+
+Definition stores_inv (v : name_cmp) (S0 : stores) (log : list (nat * list dep)) (S : stores) : Prop :=
+  forall i, store_inv v (S0 i) (writes_to i log) (S i).
+
+Lemma writes_to_app i a b : writes_to i (a ++ b) = writes_to i a ++ writes_to i b.
+Proof. unfold writes_to. apply flat_map_app. Qed.
+
+Lemma stores_inv_step v S0 log S j deps :
+  stores_inv v S0 log S ->
+  stores_inv v S0 (log ++ [(j, fst (store_write v (S j) deps))]) (upd_store S j (snd (store_write v (S j) deps))).
+Proof.
+  intros H i. rewrite writes_to_app. unfold upd_store. cbn [writes_to flat_map fst snd]. rewrite app_nil_r.
+  destruct (Nat.eqb_spec j i) as [->|Hne].
+  - rewrite Nat.eqb_refl. apply store_inv_step, H.
+  - destruct (Nat.eqb_spec i j) as [->|_]; [congruence|]. rewrite app_nil_r. apply H.
+Qed.
+
+Lemma visit_stores_inv v form S0 : forall idxs deps log S l S',
+  stores_inv v S0 log S -> visit_stores v form idxs deps S = (l, S') -> stores_inv v S0 (log ++ l) S'.
+Proof.
+  destruct form; induction idxs as [|j r IH]; intros deps log S l S' Hinv Hv; cbn [visit_stores] in Hv;
+    try (inversion Hv; subst; now rewrite app_nil_r).
+  all: pose proof (stores_inv_step v S0 log S j deps Hinv) as Hstep;
+       destruct (store_write v (S j) deps) as [w s'] eqn:Ew; cbn [fst snd] in Hstep.
+  all: destruct w as [|e w'].
+  - destruct (visit_stores v FirstWinsBreak r deps (upd_store S j s')) as [l0 S0'] eqn:Er. injection Hv as <- <-.
+    specialize (IH deps _ _ l0 S0' Hstep Er). now rewrite <- app_assoc in IH.
+  - inversion Hv; subst. exact Hstep.
+  - destruct (visit_stores v NoBreak r deps (upd_store S j s')) as [l0 S0'] eqn:Er. injection Hv as <- <-.
+    specialize (IH deps _ _ l0 S0' Hstep Er). now rewrite <- app_assoc in IH.
+  - destruct (visit_stores v NoBreak r deps (upd_store S j s')) as [l0 S0'] eqn:Er. injection Hv as <- <-.
+    specialize (IH deps _ _ l0 S0' Hstep Er). now rewrite <- app_assoc in IH.
+Qed.
+
+Lemma run_codemods_inv v form idxs S0 : forall cms log S ls S',
+  stores_inv v S0 log S -> run_codemods v form idxs cms S = (ls, S') -> stores_inv v S0 (log ++ concat ls) S'.
+Proof.
+  induction cms as [|deps r IH]; intros log S ls S' Hinv Hr; cbn [run_codemods] in Hr.
+  - inversion Hr; subst. cbn. now rewrite app_nil_r.
+  - destruct (match deps with [] => ([], S) | _ => visit_stores v form idxs deps S end) as [l S1] eqn:El.
+    destruct (run_codemods v form idxs r S1) as [ls1 S2] eqn:Er. inversion Hr; subst.
+    assert (H1 : stores_inv v S0 (log ++ l) S1).
+    { destruct deps as [|d ds].
+      - inversion El; subst. now rewrite app_nil_r.
+      - eapply visit_stores_inv; eauto. }
+    specialize (IH _ _ _ _ H1 Er). cbn [concat]. now rewrite app_assoc.
+Qed.
+
+Lemma visit_stores_first_wins v : forall idxs deps S,
+  (length (recorded_of (fst (visit_stores v FirstWinsBreak idxs deps S))) <= 1)%nat.
+Proof.
+  induction idxs as [|j r IH]; intros deps S; cbn [visit_stores]; [cbn; lia|].
+  destruct (store_write v (S j) deps) as [w s'].
+  destruct w as [|e w'].
+  - specialize (IH deps (upd_store S j s')).
+    destruct (visit_stores v FirstWinsBreak r deps (upd_store S j s')) as [l S2]. cbn in *. exact IH.
+  - cbn. lia.
+Qed.
